@@ -608,7 +608,9 @@ def check_algebra(ctx, rng, reqs, metas, n_cases):
                 free.append(n_maps)
             n_maps += 1
         if wild and n_maps and rng.random() < 0.5:
-            ops.append({"k": "setMirror", "n": rng.randint(0, n_maps), "m": rng.randint(0, n_maps)})
+            # any two existing maps (entries that name no map are outside the model: `append_mapping_inverted` turns them
+            # into negative table entries, the model's table is over the naturals)
+            ops.append({"k": "setMirror", "n": rng.randint(0, n_maps - 1), "m": rng.randint(0, n_maps - 1)})
         if rng.random() < 0.3:
             ops.append({"k": "slice", "from": rng.randint(0, n_maps), "to": None if rng.random() < 0.5 else rng.randint(0, n_maps + 1)})
         shape, other = _rand_other(rng)
